@@ -10,23 +10,22 @@ import WuffsVerif.Proof.StdHashCrc
 namespace WuffsVerif.Props.C07
 open WuffsVerif.StdHash WuffsVerif.Gen.C07
 
-/-- every entry of every regenerated CRC-32 table: `TABLE[k][i] = L^(k+1)(i)`, `L` = 8 bit steps -/
-theorem crc32_tables_check : (List.range 16).all (fun k => tableOKb 32 crc32Table crc32Poly k) = true := by
+/-- The regenerated CRC-32 tables (all 16×256 entries) equal the tables recomputed from the
+    polynomial alone: row 0 = 8 LFSR bit steps of every byte value, row k+1 = 8 more steps. -/
+theorem crc32_tables_check : tablesCheck crc32Table 0xEDB88320 16 = true := by
   decide +kernel
 
-theorem crc64_tables_check : (List.range 8).all (fun k => tableOKb 64 crc64Table crc64Poly k) = true := by
+theorem crc64_tables_check : tablesCheck crc64Table 0xC96C5795D7870F42 8 = true := by
   decide +kernel
 
-/-- **crc32_table_eq_spec** (all 16 tables, not only table 0). -/
-theorem crc32_table_eq_spec (k : Nat) (hk : k < 16) : TableOK crc32Table crc32Poly k := by
-  have h := crc32_tables_check
-  rw [List.all_eq_true] at h
-  exact tableOK_of_b _ _ _ (h k (List.mem_range.mpr hk))
+/-- **crc32_table_eq_spec**: `IEEE_TABLE[k][i] = L^(k+1)(i)` for all 16 tables, where `L` is
+    8 steps of the bit-serial reflected LFSR with polynomial 0xEDB88320. -/
+theorem crc32_table_eq_spec (k : Nat) (hk : k < 16) : TableOK crc32Table crc32Poly k :=
+  tableOK_of_check (by omega) _ _ 16 (by rw [show crc32Poly.toNat = 0xEDB88320 from rfl]; exact crc32_tables_check) k hk
 
-theorem crc64_table_eq_spec (k : Nat) (hk : k < 8) : TableOK crc64Table crc64Poly k := by
-  have h := crc64_tables_check
-  rw [List.all_eq_true] at h
-  exact tableOK_of_b _ _ _ (h k (List.mem_range.mpr hk))
+/-- same for `ECMA_TABLE` (8 tables, polynomial 0xC96C5795D7870F42) -/
+theorem crc64_table_eq_spec (k : Nat) (hk : k < 8) : TableOK crc64Table crc64Poly k :=
+  tableOK_of_check (by omega) _ _ 8 (by rw [show crc64Poly.toNat = 0xC96C5795D7870F42 from rfl]; exact crc64_tables_check) k hk
 
 /-- **crc32_bytewise_eq_spec**: the byte-at-a-time table loop (the `else` arm of the iterate
     loop in `ieee_hasher.up`) equals the bit-serial definition, for every register value and
